@@ -16,7 +16,7 @@ pub fn prop() -> Prop {
         rule: "depth 1: every one of the 108 pure functions on every argument tuple within its arity (variadic: 2 and 3 arguments) over 45 atoms of all types (absent; keys that are prefixes of one another and the empty key; empty collections inside collections; strings spelled like literals; 0 1 2 3 4 -1 1.5 -0.5 2^53 -2^63 2^64-1; empty, ASCII, non-ASCII, numeric-looking and JSON-looking strings; empty, singleton, sorted/unsorted, nested and mixed lists; empty and 1..3-member objects) plus per-function atoms (patterns, formats, instants, base64, environment names, decimal strings) and, for functional arguments, 12 bodies; the same atoms arriving as the input, a member, an element, a variable, a macro and a selected name; depth 2: every function with one argument replaced by every function applied to its documented well-typed arguments; depth 3..5: every nesting of <=3 (thorough <=4) context constructors (map, filter, flat_map, fold, sort_by, map_values, group_by, pipe, set, define over 6 sources) around 8 leaves reading ., ^, ^^, :x, @m; size thresholds: 45..65 string, list and object functions on strings (multi-byte character at either end), lists and objects of 15..1025 characters / items with counts around the size; non-trivial = the reference result is a value; distinct by construction",
         explanation: "each expression is one --select run on a one-value input; the value of the selection (or its absence) is compared with the reference evaluator written from the function documentation (self-checked against every documented example before the run); cases the documentation leaves open are executed but not compared",
         assumptions: COMMON_ASSUMPTIONS.to_vec(),
-        guards: vec!["long-string-or-list", "n-equals-zero", "n-equals-size", "n-beyond-size", "non-ascii-string-argument", "absent-argument", "ill-typed-first-argument", "integral-result-from-fractions", "parent-read-under-two-context-constructors", "documentation-examples-agree-with-the-reference"],
+        guards: vec!["binding-name-with-punctuation", "long-string-or-list", "n-equals-zero", "n-equals-size", "n-beyond-size", "non-ascii-string-argument", "absent-argument", "ill-typed-first-argument", "integral-result-from-fractions", "parent-read-under-two-context-constructors", "documentation-examples-agree-with-the-reference"],
         budget_s: (150, 3000),
         single_worker: false,
         run,
@@ -36,7 +36,7 @@ const BODIES: [&str; 12] = [".", "(+ . 1)", "(len .)", "(string? .)", "true", "^
 /// additional atoms for particular functions (all positions)
 fn extra_atoms(name: &str) -> Vec<&'static str> {
     match name {
-        "match" | "extract_regex_group" => vec!["\"a+\"", "\"(a)(b)?\"", "\"[\"", "\"^$\"", "\"é\""],
+        "match" | "extract_regex_group" => vec!["\"a+\"", "\"(a)(b)?\"", "\"[\"", "\"^$\"", "\"é\"", "\"(a)|(b)\"", "\"(x)?(a)\"", "\"(b)*a(é)?\"", "\"(?i)(B)|(?P<n>A)\"", "\"b\"", "\"xa\""],
         "format_time" => vec!["\"%Y-%m-%d %H:%M:%S\"", "\"%s\"", "\"%.3f|%A\"", "\"%Q\"", "\"%\"", "0", "1701611515", "-1.5", "1e12", "1e18", "86399.5"],
         "parse_time" | "parse_time_with_zone" => {
             vec!["\"%Y-%m-%d %H:%M:%S\"", "\"%Y-%m-%d %H:%M:%S %z\"", "\"2023-12-03 13:51:55\"", "\"2023-12-03 13:51:55 +0500\"", "\"1970-01-01 00:00:00\"", "\"%Q\"", "\"1969-12-31 23:59:58 -0130\""]
@@ -228,7 +228,7 @@ fn depth1(ctx: &mut Ctx) {
 
 /// the same atoms arriving through every kind of extractor (first argument), unary and binary functions
 fn routes(ctx: &mut Ctx) {
-    for f in ftable::pure_functions() {
+    for (fi_route, f) in ftable::pure_functions().into_iter().enumerate() {
         if f.min > 2 || LAMBDA_FNS.contains(&f.name) || ["set", "define", ":", "@", "|", "?"].contains(&f.name) {
             continue;
         }
@@ -236,11 +236,17 @@ fn routes(ctx: &mut Ctx) {
             continue;
         }
         let second: Vec<&str> = if f.min == 2 || (f.max >= 2 && f.min < 2) { vec!["1", "\"a\"", "2"] } else { vec![""] };
-        for atom in ATOMS.iter().skip(1) {
+        for (ai_route, atom) in ATOMS.iter().enumerate().skip(1) {
             let v = json::parse_str(atom);
             for s2 in &second {
                 let tail = if s2.is_empty() { String::new() } else { format!(" {s2}") };
                 let lit = format!("({} {atom}{tail})", f.name);
+                // names of variables and macros are free text up to white space, `)`, `,` or `=`
+                const VNAMES: [&str; 6] = ["v", "cfg.max", "a#1", "x[0]", "\u{e9}{k}", "m(1"];
+                let vname = VNAMES[(ai_route + fi_route) % VNAMES.len()];
+                if vname != "v" {
+                    ctx.guard("binding-name-with-punctuation");
+                }
                 let routes: Vec<(&str, String, Setup)> = vec![
                     ("input", format!("({} .{tail})", f.name), Setup { args: vec![], input: atom.to_string(), env: Env::of(v.clone()) }),
                     ("dot-sugar", format!("(.{}{tail})", f.name), Setup { args: vec![], input: atom.to_string(), env: Env::of(v.clone()) }),
@@ -250,15 +256,15 @@ fn routes(ctx: &mut Ctx) {
                         Setup { args: vec![], input: format!("{{\"m\": {atom}}}"), env: Env::of(V::Obj(vec![("m".into(), v.clone())])) },
                     ),
                     ("element", format!("({} #1{tail})", f.name), Setup { args: vec![], input: format!("[0, {atom}]"), env: Env::of(V::Arr(vec![V::int(0), v.clone()])) }),
-                    ("variable", format!("({} :v{tail})", f.name), {
+                    ("variable", format!("({} :{vname}{tail})", f.name), {
                         let mut env = Env::of(V::Null);
-                        env.vars.push(("v".into(), v.clone()));
-                        Setup { args: vec![format!("--set=v={atom}")], input: "null".into(), env }
+                        env.vars.push((vname.to_string(), v.clone()));
+                        Setup { args: vec![format!("--set={vname}={atom}")], input: "null".into(), env }
                     }),
-                    ("macro", format!("({} @m{tail})", f.name), {
+                    ("macro", format!("({} @{vname}{tail})", f.name), {
                         let mut env = Env::of(V::Null);
-                        env.macros.push(("m".into(), E::Const(v.clone())));
-                        Setup { args: vec![format!("--set=@m={atom}")], input: "null".into(), env }
+                        env.macros.push((vname.to_string(), E::Const(v.clone())));
+                        Setup { args: vec![format!("--set=@{vname}={atom}")], input: "null".into(), env }
                     }),
                     ("selected", format!("({} /s/{tail})", f.name), {
                         let mut env = Env::of(V::Null);
